@@ -7,7 +7,7 @@ From Coq Require Import String.
 From Boltons Require Import Lib.Prelude Lib.C06_Text Spec.C06_Spec Model.C06_Model Gen.C06_Gen Gen.C06_Src
   Proofs.C06_SrcEq
   Proofs.C06_Codec Proofs.C06_Utf8 Proofs.C06_Quote Proofs.C06_Lists Proofs.C06_Round Proofs.C06_Legal
-  Proofs.C06_Guard Proofs.C06_Refine Proofs.C06_Ports Proofs.C06_NoAuth Proofs.C06_NoAuthMin Proofs.C06_Shape Proofs.C06_Parsed Proofs.C06_QuoteMin Proofs.C06_Parts Proofs.C06_RoundMin Proofs.C06_Total Proofs.C06_Reads Proofs.C06_ReadsPort Proofs.C06_Links
+  Proofs.C06_Guard Proofs.C06_Refine Proofs.C06_Ports Proofs.C06_NoAuth Proofs.C06_NoAuthMin Proofs.C06_Shape Proofs.C06_Parsed Proofs.C06_QuoteMin Proofs.C06_Parts Proofs.C06_RoundMin Proofs.C06_Total Proofs.C06_Reads Proofs.C06_ReadsPort Proofs.C06_Links Proofs.C06_ParseCase
   Proofs.C06_GenOk.
 Open Scope N_scope.
 
@@ -474,6 +474,26 @@ Print Assumptions C06_parse_port_reads.
 Theorem C06_parse_qsl_form : forall T, tables_ok T = true -> forall qs, parse_qsl T qs = form_pairs qs.
 Proof. exact parse_qsl_form. Qed.
 Print Assumptions C06_parse_qsl_form.
+
+(* PARSE CASE (refinement capstone for parse cases): for every text t whose parsed URL lies inside the guards of the
+   two fixed-point theorems, the model's observation of the case - URL(t), its two renderings and the renderings of
+   their re-parses - satisfies exactly Spec.parse_ok, the predicate [holds] evaluates on the implementation's
+   observation of a KParse case (reading of the components, port and IP-literal, both fixed points). *)
+Theorem C06_parse_case_ok : forall T O,
+  tables_ok T = true -> delims_ok T = true ->
+  let nfc := o_nfc O in
+  nfc [] = [] -> (forall x, nfc (nfc x) = nfc x) -> (forall x, nfc x = [] -> x = []) ->
+  ip_text_oracles O ->
+  forall t u, url_init T O t = MOk u ->
+  fx_guard T O u = true ->
+  (no_pct (observe_url T u) = true -> fx_guard_min T O u = true) ->
+  forall t1 u1 t2 m1 v1 m2,
+  to_text T O true u = MOk t1 -> url_init T O t1 = MOk u1 -> to_text T O true u1 = MOk t2 ->
+  to_text T O false u = MOk m1 -> url_init T O m1 = MOk v1 -> to_text T O false v1 = MOk m2 ->
+  forall host_valid,
+  parse_ok host_valid t (Ok (observe_url T u)) (Ok t1) (Ok t2) (Ok m1) (Ok m2) = true.
+Proof. exact parse_case_ok. Qed.
+Print Assumptions C06_parse_case_ok.
 
 (* TOTALITY (model): URL(text) returns a URL or raises URLParseError, for every text, all tables
    and all codec answers (inet_pton's failures are caught in parse_host, so that oracle answers
